@@ -27,7 +27,8 @@ CONSTANTS
   CutRecs,     \* ... of databases with at most this many records
   PreKinds,    \* subset of {"none", "base"}: is another database already loaded?
   Layouts,     \* subset of {"gaps", "canon"}: index numbers as generated (8, 11, 14) or already canonical
-  MultiPre, MultiLayouts   \* databases of more than one record only for these (pre, layout); so are the prefixes
+  MultiPre, MultiLayouts, MultiStrs   \* databases of more than one record only for these (pre, layout, A);
+                                      \* prefixes only for these layouts
 
 VARIABLES
   par,         \* [a, pre, layout] chosen initially
@@ -66,7 +67,7 @@ Init ==
 (* Generation *)
 Gen(k, v) ==
   /\ pc = "gen" /\ NumRecs(db) < MaxRecs
-  /\ NumRecs(db) >= 1 => par.pre \in MultiPre /\ par.layout \in MultiLayouts
+  /\ NumRecs(db) >= 1 => par.pre \in MultiPre /\ par.layout \in MultiLayouts /\ par.a \in MultiStrs
   /\ db' = [db EXCEPT ![k] = Append(@, Tmpl(k, v, IdxOf(NumRecs(db) + 1), A, B, IdxSeq(db.f)))]
   /\ UNCHANGED <<par, hdr, cut, stream, pc, sec, left, st, fmaj, fmin, temp, glob, err>>
 
